@@ -139,6 +139,19 @@ impl Routine for Lru {
         Ok(o)
     }
 
+    fn follow_up(h: &LruHist, dir: &Path) -> Option<Result<Obs, String>> {
+        // later session: recover, evict the tail, bump the generation and checkpoint (shutdown path), observe
+        Some((|| {
+            let rt = crate::rt();
+            let mut lru = LruManager::new(h.capacity, dir.to_path_buf());
+            rt.block_on(lru.run_cycle(0, 0)).map_err(|e| format!("follow-up run_cycle: {e}"))?;
+            let _ = lru.evict_tail();
+            rt.block_on(lru.shutdown()).map_err(|e| format!("follow-up shutdown: {e}"))?;
+            drop(lru);
+            Self::observe(h, dir)
+        })())
+    }
+
     /// stale bytes for a checkpoint file: what was at that path, else the newest other generation
     fn stale_for(path: &str, before: &Files) -> Option<Blob> {
         if let Some(b) = before.get(path) {
